@@ -176,6 +176,9 @@ static const char *dirName(CardinalDir d) {
                  case CardinalDir::WEST: return "W"; default: return "N"; }
 }
 
+// round down to a multiple of 1/grid (dyadic for grid = 8)
+static double dy(double v, double grid) { return std::floor(v * grid) / grid; }
+
 // ---- peel + symmetric layout -----------------------------------------------------------------
 static void runPeel(vh::Rng &r, const GSpec &g) {
     Built b = build(r, g);
@@ -210,17 +213,32 @@ static void runPeel(vh::Rng &r, const GSpec &g) {
             maxDim = std::max(maxDim, std::max(dm.first, dm.second));
         }
         double nodeSep, rankSep;
-        if (r.coin()) { nodeSep = iel / 4; rankSep = std::max(iel, maxDim); }
+        // HOLA's choice IEL/4, IEL rounded down to multiples of 1/8 (dyadic, so that the exact tie with the
+        // Lean model of symmetricLayout applies to the peeled trees as well)
+        if (r.coin()) { nodeSep = dy(iel / 4, 8); rankSep = std::max(dy(iel, 8), maxDim); }
         else { nodeSep = (double) r.range(1, 40) / 2.0; rankSep = maxDim + (double) r.range(0, 120) / 2.0; }
         bool convex = r.coin();
+        for (auto p : t->underlyingGraph()->getNodeLookup()) {
+            dimensions dm = p.second->getDimensions();
+            printf("psz %ld %u %s %s\n", i, p.first, vh::hx(dm.first).c_str(), vh::hx(dm.second).c_str());
+            printf("pkids %ld %u", i, p.first);
+            for (Node_SP c : p.second->getChildren()) printf(" %u", c->id());
+            printf("\n");
+        }
         printf("layout %ld %s %s %s %d\n", i, dirName(d), vh::hx(nodeSep).c_str(), vh::hx(rankSep).c_str(), (int) convex);
+        printf("exactp %ld\n", i);
         fflush(stdout);
         t->symmetricLayout(d, nodeSep, rankSep, convex);
         for (auto p : t->underlyingGraph()->getNodeLookup()) {
             BoundingBox bb = p.second->getBoundingBox();
             printf("box %ld %u %s %s %s %s\n", i, p.first, vh::hx(bb.x).c_str(), vh::hx(bb.X).c_str(),
                    vh::hx(bb.y).c_str(), vh::hx(bb.Y).c_str());
+            Avoid::Point c = p.second->getCentre();
+            printf("pctr %ld %u %s %s\n", i, p.first, vh::hx(c.x).c_str(), vh::hx(c.y).c_str());
         }
+        for (size_t rk = 0; rk < t->m_boundsByRank.size(); ++rk)
+            printf("prb %ld %zu %s %s\n", i, rk, vh::hx(t->m_boundsByRank[rk][0]).c_str(), vh::hx(t->m_boundsByRank[rk][1]).c_str());
+        printf("plbub %ld %s %s\n", i, vh::hx(t->m_lb).c_str(), vh::hx(t->m_ub).c_str());
         printf("laid %ld %d\n", i, (int) t->isSymmetrical());
         ++i;
     }
@@ -469,7 +487,6 @@ static void genLayoutTree(vh::Rng &r, int shape, int n, std::vector<int> &parent
 //             driver only checks the exact tie there)
 // All sizes and separations are dyadic with few bits, so every double operation of symmetricLayout is
 // exact and the model (Rat) must reproduce every coordinate exactly.
-static double dy(double v, double grid) { return std::floor(v * grid) / grid; }
 
 static void runLayout(vh::Rng &r, const std::vector<int> &parent, int dirIdx, int sizeMode, int sepMode = 0, int convexNum = 3) {
     static const CardinalDir dirs[4] = {CardinalDir::NORTH, CardinalDir::EAST, CardinalDir::SOUTH, CardinalDir::WEST};
